@@ -7,6 +7,8 @@ import (
 	"crypto/sha256"
 	"fmt"
 	"io"
+	"net/http"
+	"net/http/httptest"
 	"runtime"
 	"strings"
 	"sync"
@@ -42,8 +44,24 @@ type c18Codec struct {
 	Chunked bool   `json:"chunked,omitempty"` // request sent without Content-Length
 }
 
+// c18Flight is one client of an overlap case: its own body, sent Rounds times.
+type c18Flight struct {
+	Payload int    `json:"payload"`
+	Random  bool   `json:"random,omitempty"`
+	Seed    uint64 `json:"seed"`
+	Coding  string `json:"coding"`          // identity | identity-hdr | gzip | zstd
+	Chunk   int    `json:"chunk,omitempty"` // the body reader hands out at most this many bytes per Read and yields in between (0: as asked)
+	Server  int    `json:"server,omitempty"`
+}
+
 type c18Case struct {
-	Kind string `json:"kind"` // http | bomb | stack
+	Kind string `json:"kind"` // http | bomb | stack | overlap
+
+	// overlap: Flights clients post their (different) bodies at the same time,
+	// Rounds times each, to 1-2 servers; every one must be decoded to its own bytes
+	Flights []c18Flight `json:"flights,omitempty"`
+	Rounds  int         `json:"rounds,omitempty"`
+	Servers int         `json:"servers,omitempty"`
 
 	// http
 	Payload  int      `json:"payload,omitempty"` // bytes of the binary column the handler must receive
@@ -141,15 +159,38 @@ func genC18Codec(t *rapid.T, large bool) c18Codec {
 
 func genC18(t *rapid.T) c18Case {
 	var c c18Case
-	switch k := rapid.IntRange(0, 19).Draw(t, "kind"); {
-	case k < 13:
+	switch k := rapid.IntRange(0, 39).Draw(t, "kind"); {
+	case k < 25:
 		c.Kind = "http"
-	case k < 14:
+	case k < 27:
 		c.Kind = "bomb"
+	case k < 28:
+		c.Kind = "overlap"
 	default:
 		c.Kind = "stack"
 	}
 	switch c.Kind {
+	case "overlap":
+		c.Servers = rapid.IntRange(1, 2).Draw(t, "oservers")
+		c.Rounds = rapid.IntRange(2, 8).Draw(t, "orounds")
+		n := rapid.IntRange(2, 32).Draw(t, "oflights")
+		for i := 0; i < n; i++ {
+			f := c18Flight{
+				Random: rapid.IntRange(0, 2).Draw(t, "orandom") == 0,
+				Seed:   rapid.Uint64().Draw(t, "oseed"),
+				Coding: []string{"identity", "identity", "identity", "identity", "identity-hdr", "identity-hdr", "gzip", "zstd"}[rapid.IntRange(0, 7).Draw(t, "ocoding")],
+				Chunk:  []int{0, 0, 512, 4096, 32 << 10}[rapid.IntRange(0, 4).Draw(t, "ochunk")],
+				Server: rapid.IntRange(0, c.Servers-1).Draw(t, "oserver"),
+			}
+			// bodies that take a while to read and to parse are the ones that
+			// are in flight together
+			if rapid.IntRange(0, 3).Draw(t, "osmall") == 0 {
+				f.Payload = rapid.IntRange(0, 6000).Draw(t, "opayload")
+			} else {
+				f.Payload = rapid.IntRange(16<<10, 256<<10).Draw(t, "opayload-large")
+			}
+			c.Flights = append(c.Flights, f)
+		}
 	case "http":
 		switch rapid.IntRange(0, 5).Draw(t, "psize") {
 		case 0:
@@ -205,7 +246,8 @@ var c18EchoSchema = arrow.NewSchema([]arrow.Field{{Name: "data", Type: arrow.Bin
 var (
 	c18Once     sync.Once
 	c18Srv      *vgirpc.Server
-	c18Received [][]byte // what the handler saw since the last reset (single-goroutine use)
+	c18RecvMu   sync.Mutex
+	c18Received [][]byte // what the handler saw since the last reset
 )
 
 func c18Server() *vgirpc.Server {
@@ -213,7 +255,9 @@ func c18Server() *vgirpc.Server {
 		c18Srv = vgirpc.NewServer()
 		c18Srv.SetServerID("srv-c18")
 		vgirpc.Unary(c18Srv, "c18_echo", func(_ context.Context, _ *vgirpc.CallContext, p c18EchoParams) (string, error) {
+			c18RecvMu.Lock()
 			c18Received = append(c18Received, append([]byte{}, p.Data...))
+			c18RecvMu.Unlock()
 			return fmt.Sprintf("%d:%x", len(p.Data), sha256.Sum256(p.Data)), nil
 		})
 	})
@@ -436,8 +480,157 @@ func runC18(c c18Case) (out lib.Outcome) {
 		return runC18Bomb(c)
 	case "stack":
 		return runC18Stack(c)
+	case "overlap":
+		return runC18Overlap(c)
 	}
 	panic("runC18: " + c.Kind)
+}
+
+// ---- overlapping requests ----
+
+// yieldingBody is a request body that arrives in pieces, the way a body
+// arrives from a connection: at most chunk bytes per Read, and the reading
+// goroutine gives way to the others between pieces.
+type yieldingBody struct {
+	data  []byte
+	chunk int
+}
+
+func (y *yieldingBody) Read(p []byte) (int, error) {
+	if len(y.data) == 0 {
+		return 0, io.EOF
+	}
+	if y.chunk > 0 {
+		runtime.Gosched()
+		if len(p) > y.chunk {
+			p = p[:y.chunk]
+		}
+	}
+	n := copy(p, y.data)
+	y.data = y.data[n:]
+	return n, nil
+}
+func (y *yieldingBody) Close() error { return nil }
+
+type c18FlightResult struct {
+	status int
+	echo   string
+	text   string
+	panic  string
+}
+
+// runC18Overlap posts different bodies at the same time. "Decoded to exactly
+// the bytes the client encoded" holds for each request on its own terms: the
+// echo method answers with the length and SHA-256 of what its handler was
+// given, so each response says which bytes that very request was decoded to.
+// All bodies are far inside the caps (defaults), so every one must be accepted.
+func runC18Overlap(c c18Case) (out lib.Outcome) {
+	out.NonTrivial = true
+	out.Label("overlap", fmt.Sprintf("overlap-servers:%d", c.Servers))
+	servers := make([]*vgirpc.HttpServer, max(c.Servers, 1))
+	for i := range servers {
+		servers[i] = newC18HTTP(false, 0, false, 0, false, 0)
+	}
+	type flight struct {
+		spec    c18Flight
+		body    []byte
+		hdr     hdrList
+		want    string
+		results []c18FlightResult
+	}
+	flights := make([]*flight, len(c.Flights))
+	for i, f := range c.Flights {
+		payload := c18Payload(c18Case{Payload: f.Payload, Random: f.Random, Seed: f.Seed})
+		ipc := c18RequestIPC(payload)
+		fl := &flight{spec: f, body: ipc, hdr: hdrList{{"Content-Type", lib.ArrowCT}}, want: fmt.Sprintf("%d:%x", len(payload), sha256.Sum256(payload))}
+		switch f.Coding {
+		case "identity-hdr":
+			fl.hdr = append(fl.hdr, [2]string{"Content-Encoding", "identity"})
+		case "gzip":
+			fl.body = gzipEncode(ipc, 1, 1)
+			fl.hdr = append(fl.hdr, [2]string{"Content-Encoding", "gzip"})
+		case "zstd":
+			fl.body, _ = zstdEncode(ipc, c18Codec{Name: "zstd", Level: 1, Frames: 1})
+			fl.hdr = append(fl.hdr, [2]string{"Content-Encoding", "zstd"})
+		}
+		out.Label("overlap-coding:" + f.Coding)
+		flights[i] = fl
+	}
+	c18RecvMu.Lock()
+	c18Received = c18Received[:0]
+	c18RecvMu.Unlock()
+	start := make(chan struct{})
+	var wg sync.WaitGroup
+	for _, fl := range flights {
+		wg.Add(1)
+		go func() {
+			defer wg.Done()
+			<-start
+			h := servers[fl.spec.Server%len(servers)]
+			for round := 0; round < c.Rounds; round++ {
+				var r c18FlightResult
+				req := httptest.NewRequest("POST", "/c18_echo", nil)
+				req.Body = &yieldingBody{data: fl.body, chunk: fl.spec.Chunk}
+				req.ContentLength = int64(len(fl.body))
+				for _, kv := range fl.hdr {
+					req.Header.Set(kv[0], kv[1])
+				}
+				rec := httptest.NewRecorder()
+				func() {
+					defer func() {
+						if rv := recover(); rv != nil {
+							r.panic = fmt.Sprint(rv)
+						}
+					}()
+					h.ServeHTTP(rec, req)
+				}()
+				r.status = rec.Code
+				res := httpResult{}
+				res.Status, res.Header, res.Body, res.Decoded = rec.Code, rec.Header(), rec.Body.Bytes(), rec.Body.Bytes()
+				if rec.Code == http.StatusOK {
+					if streams, err := lib.SplitStreams(res.Decoded); err == nil {
+						for _, s := range streams {
+							for _, b := range s.Batches {
+								if b.Kind() == "data" && b.Rec.NumRows() == 1 && b.Rec.NumCols() == 1 {
+									r.echo, _ = lib.Value(b.Rec.Column(0), 0).(string)
+								}
+							}
+						}
+					}
+				} else {
+					r.text = errText(res)
+				}
+				fl.results = append(fl.results, r)
+			}
+		}()
+	}
+	close(start)
+	wg.Wait()
+	c18RecvMu.Lock()
+	c18Received = c18Received[:0]
+	c18RecvMu.Unlock()
+	total := 0
+	for i, fl := range flights {
+		for round, r := range fl.results {
+			total++
+			desc := fmt.Sprintf("client %d of %d (coding=%s payload=%d wire=%d chunk=%d server=%d), round %d of %d, all clients posting at once, no cap configured -> status %d",
+				i, len(flights), fl.spec.Coding, fl.spec.Payload, len(fl.body), fl.spec.Chunk, fl.spec.Server, round, c.Rounds, r.status)
+			coding := strings.TrimSuffix(fl.spec.Coding, "-hdr")
+			switch {
+			case r.panic != "":
+				out.Violate("C18/panic", "%s: panic %s", desc, lib.Short(r.panic, 300))
+			case r.status != http.StatusOK:
+				out.Violate(lib.Keyf("C18", "in-cap-refused", coding, "overlapping"), "%s: %q", desc, lib.Short(r.text, 160))
+			case r.echo != fl.want:
+				out.Violate(lib.Keyf("C18", "decoded-bytes-differ", coding, "overlapping"), "%s: the handler was given %s, the client encoded %s (length:sha256)", desc, lib.Short(r.echo, 80), lib.Short(fl.want, 80))
+			}
+			if len(out.Violations) > 0 {
+				return
+			}
+		}
+	}
+	out.Label(fmt.Sprintf("overlap-requests:%d+", min(total/50*50, 200)))
+	return
 }
 
 func newC18HTTP(bSet bool, b int64, rSet bool, r int64, dSet bool, d int64) *vgirpc.HttpServer {
@@ -928,19 +1121,22 @@ var propC18 = lib.Prop[c18Case]{
 	Rule: "http: payload 0-200 KB (compressible / pseudo-random) in a binary column of a unary request, sent as identity / gzip (levels -1..9, 1-3 members) / zstd (levels 1-4, 1-3 frames, one-shot with content size or streamed with flushes without, window 2^10..2^22, checksum) / unknown codings, header spelt with case and OWS, with or without Content-Length; SetMaxBodySize, SetMaxRequestBytes, SetMaxDecompressedBodySize each in {not called, 0, negative, absolute, wire size+d, decoded size+d, decoded/16+d}, d in {0,+-1,+-8,+-100}, drawn independently (all relative orders). " +
 		"bomb: 64 MiB (256 thorough) of zeros as gzip / streamed zstd (1 KiB window) / zstd with declared size against a 4 KiB-3 MiB decoded cap on the server (decompressed cap, or advertised request cap) and on DecodeContentEncoding, judged by runtime TotalAlloc growth < 8*cap+16 MiB. " +
 		"stack: DecodeContentEncoding on stacks of 0-4 codings (zstd, gzip, identity, unknown, empty; spelt variants) with the per-coding limit at each stage size +-1. " +
+"overlap: 2-32 clients with different bodies (0-256 KiB, mostly identity with or without the header, some gzip/zstd; the body reader hands out the whole body or 512 B-32 KiB pieces and yields between them) post 2-8 times each at the same time (real goroutines behind a start barrier, 1-2 servers, no cap configured); every response must be 200 and echo the length and SHA-256 of exactly that client's payload. " +
 		"Oracle: model of the documented caps; in-cap -> handler receives exactly the payload (sha256 echoed); raw over the advertised cap -> 413, over the wire cap only -> 400; decoded over a cap -> refused, 413 iff the violated cap is the advertised request cap; unknown coding -> 415; never more than cap+1 body bytes consumed. zstd frames whose header window exceeds the decoded cap are outside the domain. " +
 		"Non-trivial: a size within +-1 of a cap, a stack of >=2 codings, or a bomb.",
 	Gen: genC18,
 	Run: runC18,
 	Essential: []string{"raw-at-cap", "decoded-at-cap", "class:raw-over-cap", "class:unknown-coding", "class:decoded-in-cap", "class:decoded-over-decompressed-cap",
 		"class:decoded-over-request-cap-only", "class:identity-in-cap", "zstd:fcs", "zstd:nofcs", "multiframe:zstd", "multiframe:gzip", "chunked",
-		"stack>=2", "stage-at-limit", "stack:over-limit", "stack:in-limit", "bomb:gzip", "bomb:zstd_stream"},
+		"stack>=2", "stage-at-limit", "stack:over-limit", "stack:in-limit", "bomb:gzip", "bomb:zstd_stream",
+		"overlap", "overlap-servers:2", "overlap-coding:identity", "overlap-coding:identity-hdr", "overlap-coding:gzip"},
 	EssentialMin: 600,
 	Assumptions: []string{
 		"documented caps: SetMaxBodySize (wire size, default 64 MiB, <=0 off), SetMaxRequestBytes (advertised, <=0 off), SetMaxDecompressedBodySize (>0 cap, 0 = 16 x wire cap, <0 disabled)",
 		"whether the advertised request cap also bounds the decoded size is not documented for every configuration: a body whose decoded size exceeds only that cap may be accepted or refused (413)",
 		"a zstd frame whose header asks for a window (>= 1 KiB, or its declared content size) above the decoded cap is outside the property's domain",
-		"single-goroutine test process: TotalAlloc growth during a call is attributed to the call",
+		"one case runs at a time and only overlap cases start goroutines (all joined before the case ends): TotalAlloc growth during a bomb call is attributed to the call",
+		"overlap cases: which requests actually overlap is up to the scheduler; the verdict per response is exact",
 	},
 }
 
